@@ -61,6 +61,9 @@ fn main() {
     if tier != "quick" && tier != "thorough" {
         usage();
     }
+    if tier == "thorough" {
+        vcheck::plan::THOROUGH.store(true, std::sync::atomic::Ordering::Relaxed);
+    }
     let Some(p) = props::build(&id) else {
         eprintln!("unknown property {id}");
         std::process::exit(2);
